@@ -13,7 +13,8 @@
 (***************************************************************************)
 EXTENDS Integers, Sequences, FiniteSets, TLC, Json
 
-CONSTANTS Times, Incs, Orders, EmitOn
+CONSTANTS Times, Incs, Orders, EmitOn,
+          Random      \* FALSE: the exhaustive grid; TRUE: random values (run with TLC -simulate)
 
 Tokens == <<"wtime", "btime", "winc", "binc">>
 Perms == {p \in [1..4 -> 1..4] : \A i, j \in 1..4 : i # j => p[i] # p[j]}
@@ -30,14 +31,31 @@ SubOrders == UNION {{Keep(o, m) : m \in (SUBSET TokenSet) \ {{}}} : o \in OrderS
 Present(x) == {x.order[i] : i \in 1..Len(x.order)}
 
 VARIABLE g    \* [stm, wtime, btime, winc, binc, order]
-Init == /\ g \in [stm : {"w", "b"}, wtime : Times, btime : Times, winc : Incs, binc : Incs, order : SubOrders]
-        /\ \A t \in TokenSet \ Present(g) : ValOf(g, t) = 0
-Next == UNCHANGED g
-Spec == Init /\ [][Next]_g
+\* increments RELATIVE to the clock they belong to: just below / at / above it, and around the share of the
+\* clock a per-move allocation typically hands out (an allocation that is sound for small increments can
+\* still reach the whole clock when the increment is a little below it)
+Near(t) == {x \in {t - 1, t + 1, t - 100, (t * 24) \div 25, (t * 49) \div 50, (t * 97) \div 100, t \div 2} : x >= 0}
+GridInit == /\ g \in [stm : {"w", "b"}, wtime : Times, btime : Times, winc : Incs, binc : Incs, order : SubOrders]
+                  \cup UNION {[stm : {"w"}, wtime : {t}, btime : {0, 60000}, winc : Near(t), binc : {0, 1000}, order : SubOrders] : t \in Times}
+                  \cup UNION {[stm : {"b"}, btime : {t}, wtime : {0, 60000}, binc : Near(t), winc : {0, 1000}, order : SubOrders] : t \in Times}
+            /\ \A t \in TokenSet \ Present(g) : ValOf(g, t) = 0
+\* random go commands: clocks from a few magnitudes, increments anywhere between 0 and twice the clock
+\* (a parameter that depends on the state keeps TLC from evaluating the draw once and caching it as a constant)
+RandTime(dummy) == LET m == RandomElement({10, 1000, 6000, 100000, 10000000}) IN RandomElement(0..m)
+RandInc(t) == IF RandomElement({TRUE, FALSE}) THEN RandomElement(0..(2 * t + 10)) ELSE RandomElement(0..5000)
+RandGo(wt, bt) == [stm |-> RandomElement({"w", "b"}), wtime |-> wt, btime |-> bt, winc |-> RandInc(wt), binc |-> RandInc(bt),
+                   order |-> RandomElement(OrderSet)]
+Init == IF Random THEN g = RandGo(RandTime(0), RandTime(1)) ELSE GridInit
 
 RECURSIVE ClockText(_, _)
 ClockText(x, ord) == IF ord = <<>> THEN "" ELSE " " \o Head(ord) \o " " \o ToString(ValOf(x, Head(ord))) \o ClockText(x, Tail(ord))
 GoText(x) == "go" \o ClockText(x, x.order)
+
+Next == IF Random THEN /\ (EmitOn => PrintT(<<"@@", ToJson([k |-> "go", text |-> GoText(g), stm |-> g.stm,
+                                            go |-> [wtime |-> g.wtime, btime |-> g.btime, winc |-> g.winc, binc |-> g.binc]])>>))
+                           /\ g' = RandGo(RandTime(g), RandTime(g.order))
+        ELSE UNCHANGED g
+Spec == Init /\ [][Next]_g
 
 OwnTime(x) == IF x.stm = "w" THEN x.wtime ELSE x.btime
 OwnInc(x) == IF x.stm = "w" THEN x.winc ELSE x.binc
@@ -60,6 +78,6 @@ OwnClockOnly(obs) == \A a \in obs, b \in obs :
 
 ModelFits == ModelBudget(OwnTime(g), OwnInc(g)) >= 0 /\ ModelBudget(OwnTime(g), OwnInc(g)) <= OwnTime(g)
              /\ (OwnTime(g) > 0 => ModelBudget(OwnTime(g), OwnInc(g)) < OwnTime(g))
-EmitInv == EmitOn => PrintT(<<"@@", ToJson([k |-> "go", text |-> GoText(g), stm |-> g.stm,
+EmitInv == (EmitOn /\ ~Random) => PrintT(<<"@@", ToJson([k |-> "go", text |-> GoText(g), stm |-> g.stm,
                                             go |-> [wtime |-> g.wtime, btime |-> g.btime, winc |-> g.winc, binc |-> g.binc]])>>)
 =============================================================================
